@@ -70,6 +70,9 @@ func runC02(c *Ctx) {
 					return "F,err"
 				}
 				if !a["minStakeOK"] {
+					if !a["canValidate"] {
+						return "F,err|F,nil" // already excluded: whether the stake lookup is attempted is immaterial
+					}
 					return "F,err"
 				}
 				if a["canValidate"] && a["minStake"] {
